@@ -160,8 +160,10 @@ class TargetCollector:
             counter_lookup_item = CounterLookupItem(
                 parse_again_function, missing_counters,
                 missing_target_counters)
-            self.counter_lookup_items.setdefault(
-                (parent_box, css_token), counter_lookup_item)
+            # Replace the item of a previous parsing, that may have stopped at
+            # a pending target before collecting the target's missing counters
+            self.counter_lookup_items[parent_box, css_token] = (
+                counter_lookup_item)
 
     def check_pending_targets(self):
         """Check pending targets if needed."""
